@@ -38,6 +38,7 @@ VIEW_METHODS = {"reshape", "ravel", "squeeze", "view", "transpose", "swapaxes", 
 VIEW_ATTRS = {"T", "real", "imag", "flat", "base", "data"}
 MUTATING_METHODS = {"sort", "fill", "put", "resize", "itemset", "setflags", "partition", "byteswap", "setfield",
                     "append", "extend", "insert", "remove", "clear", "reverse", "update", "popitem", "setdefault", "pop"}
+LIST_MUTATORS = {"append", "extend", "insert", "remove", "clear", "reverse", "update", "popitem", "setdefault", "pop"}
 MUTATING_FUNCS = {"copyto": 0, "put": 0, "place": 0, "putmask": 0, "put_along_axis": 0, "fill_diagonal": 0, "shuffle": 0}
 SCALAR_ANN = {"int", "float", "bool", "str", "complex", "Number"}
 SAMPLE_FIELDS = {"signal", "noise", "data"}
@@ -655,7 +656,13 @@ class Effects:
                     out |= self._apply_summary(m, [br] + args, kws, s, e)
                 return out
             if name in MUTATING_METHODS:
-                if br and not (name == "byteswap" and not e.args):
+                if name in LIST_MUTATORS:
+                    # a list/dict built locally is a fresh container even when its elements alias arguments
+                    direct = isinstance(f.value, ast.Name) and f.value.id in fi.params and env.get(f.value.id) == {(f.value.id, "")}
+                    direct = direct or (isinstance(f.value, ast.Attribute) and bool(br))
+                    if direct:
+                        self._record_mut(s, br, e)
+                elif br and not (name == "byteswap" and not e.args):
                     self._record_mut(s, br, e)
                 if isinstance(f.value, ast.Name) and allr:
                     fld.setdefault(f.value.id, set()).update(allr)
